@@ -127,17 +127,20 @@ def run(run, replay=None):
     run.sample({'lines': [l.decode('latin-1') for l in lines], 'ignore_garbage': ig, 'result': cases[-2]['res']})
     run.sample({'lines': [bytes(l).decode('latin-1') for l in cases[50]['lines']], 'ignore_garbage': cases[50]['ignore'],
                 'result': cases[50]['res']})
-    can = []
-    pool = [c for c in cases if c['res']['hunks']]
-    for k, c in enumerate(rng.sample(pool, min(10, len(pool)))):
-        z = copy.deepcopy(c)
-        z['canary_of'] = z['id']
-        z['id'] = 'canary-%d' % k
-        h = z['res']['hunks'][0]
-        [lambda: h.__setitem__('pre', h['pre'] + 1), lambda: z['res'].__setitem__('tins', z['res']['tins'] + 1),
-         lambda: z['res'].__setitem__('nproc', z['res']['nproc'] + 1), lambda: h['o'].__setitem__('start', h['o']['start'] + 1),
-         lambda: h['m'].__setitem__('changed', h['m']['changed'] + 1)][k % 5]()
-        can.append(z)
+    def _mk_canaries():
+        can = []
+        pool = [c for c in cases if c['res']['hunks']]
+        for k, c in enumerate(rng.sample(pool, min(10, len(pool)))):
+            z = copy.deepcopy(c)
+            z['canary_of'] = z['id']
+            z['id'] = 'canary-%d' % k
+            h = z['res']['hunks'][0]
+            [lambda: h.__setitem__('pre', h['pre'] + 1), lambda: z['res'].__setitem__('tins', z['res']['tins'] + 1),
+             lambda: z['res'].__setitem__('nproc', z['res']['nproc'] + 1), lambda: h['o'].__setitem__('start', h['o']['start'] + 1),
+             lambda: h['m'].__setitem__('changed', h['m']['changed'] + 1)][k % 5]()
+            can.append(z)
+        return can
+    can = run.tolerant(_mk_canaries)
     v = run.judge('Trace_Hunks', cases + can, None, canary_ids=[c['id'] for c in can], with_tables=False,
                   describe=lambda c: {'lines': [bytes(l).decode('latin-1') for l in c['lines']], 'ignore': c['ignore'],
                                       'res': c['res']})
